@@ -618,6 +618,8 @@ def panic_sites(body):
                 out.append((t["ln"], ("Result::" if "result::Result" in d else "Option::") + nm, t.get("x")))
             if d.startswith("core::panicking::") or d.startswith("std::rt::begin_panic") or nm in ("panic_fmt", "unreachable_display", "panic_display"):
                 out.append((t["ln"], d, t.get("x")))
+            if nm in ("split_at", "split_at_mut", "split_off", "swap_remove", "copy_from_slice", "clone_from_slice") and (d.startswith("core::") or d.startswith("alloc::")):
+                out.append((t["ln"], f"{nm} (panics when the index is out of bounds)", t.get("x")))
             if nm == "index" and "ops::index::Index" in d:
                 # indexing with `..` (RangeFull) selects the whole slice / str / Vec / array and cannot fail
                 if not any(ty_adt(s_) == "core::ops::range::RangeFull" for s_ in t["call"].get("substs", [])[1:2]):
